@@ -91,7 +91,7 @@ func buildFlattenRuns(tier string, seed int64, scratch string, which string) ([]
 		}
 		for j, o := range sets {
 			// phase snapshots (L1 contracts, L2 step conformance) are recorded for a rotating third of the runs in the quick tier
-			phases := tier == "thorough" || (i+j+int(seed))%3 == 0
+			phases := (i+j+int(seed))%3 == 0
 			args := flattenArgs{Opts: o, InW: inW(b.Feat, o), Second: !o.Expand, Rerun: o.Expand, Getters: true, Phases: phases, Anon: b.Feat.Anon || b.Feat.SharedPtr}
 			runs = append(runs, &flattenRun{c: c, args: args, tid: fmt.Sprintf("%so%d", c.Tid, j)})
 		}
